@@ -390,6 +390,32 @@ def handleWeb (req : Json) : Except String Json := do
       | .write p => Json.arr #[.str "write", .str p])).toArray)]
   pure (Json.mkObj [("ok", .arr (reqs.map (fun r => enc (Nbdime.Web.handle sf ⟨cwd, out, closable⟩ r))).toArray)])
 
+def decPKey : Json → Except String PKey
+  | .str s => pure (.s s)
+  | j => do pure (.i (← jnat j))
+
+def optDiff (j : Json) : Except String (Option (List Op)) :=
+  match j with
+  | .null => pure none
+  | j => do pure (some (← decDiff j))
+
+def decDecision (j : Json) : Except String Decision := do
+  let path ← match j.getObjVal? "path" with
+    | .ok (.arr xs) => xs.toList.mapM decPKey
+    | _ => throw "decision.path"
+  let action ← j.getObjValAs? String "action"
+  let conflict := match j.getObjVal? "conflict" with
+    | .ok (.bool b) => b
+    | _ => false
+  pure { path := path, action := action, conflict := conflict,
+         localDiff := ← optDiff (j.getObjValD "local"), remoteDiff := ← optDiff (j.getObjValD "remote"),
+         customDiff := ← optDiff (j.getObjValD "custom") }
+
+def decDecisions (j : Json) : Except String (List Decision) :=
+  match j with
+  | .arr xs => xs.toList.mapM decDecision
+  | _ => throw "decisions must be a list"
+
 def handle (req : Json) : Except String Json := do
   let cmd ← req.getObjValAs? String "cmd"
   match cmd with
@@ -401,6 +427,18 @@ def handle (req : Json) : Except String Json := do
   | "cfg" => handleCfg req
   | "gitfiles" => handleGitFiles req
   | "web" => handleWeb req
+  | "apply" => do
+      let base ← decJ (req.getObjValD "base")
+      let ds ← decDecisions (req.getObjValD "decisions")
+      pure (reply (applyDecisions base ds) encJ)
+  | "applyas" => do
+      let base ← decJ (req.getObjValD "base")
+      let ds ← decDecisions (req.getObjValD "decisions")
+      let side ← req.getObjValAs? String "side"
+      pure (reply (applyAs side base ds) encJ)
+  | "childrenfirst" => do
+      let ds ← decDecisions (req.getObjValD "decisions")
+      pure (Json.mkObj [("ok", .bool (childrenFirst ds))])
   | "hist" =>
       match req.getObjVal? "calls" with
       | .ok (.arr xs) => do
